@@ -7,9 +7,10 @@
    MEASURED on the running code by harness/zz_vf_cryptoparams_test.go on every
    run of bin/check C09 (can a decoder without the key read any planted secret in
    a fresh cookie); C09_opaque_param evaluates it, so this file stops compiling
-   when the encryption is removed.  Proofs: Proofs/SecrecyProofs.v. *)
+   when the encryption is removed.  Proofs: Proofs/SecrecyProofs.v,
+   Proofs/SecrecyNI.v. *)
 From VF Require Import Base.Prelude Model.Cache Model.Session Model.Middleware Model.Secrecy Spec.WorldSpec.
-From VF Require Import Proofs.SessionProofs Proofs.SecrecyProofs Proofs.W_C17 Proofs.W_Example.
+From VF Require Import Proofs.SessionProofs Proofs.SecrecyProofs Proofs.SecrecyNI Proofs.W_C17 Proofs.W_Example.
 From VFP Require Import ParamsCrypto.
 Open Scope N_scope.
 
@@ -86,10 +87,10 @@ Print Assumptions C09_load_ignores_undecodable.
    schedules chunk-cookie DELETIONS counts the same cookies in both jars (since
    fix 098055b that walk deliberately counts undecodable chunk cookies too, so
    that they are deleted: C17; the premise always holds when the undecodable
-   cookies are main / token cookies or lie behind a gap).  PARTIAL in this
-   respect: without the premise the two responses differ at most in those
-   deletion Set-Cookie headers — that last statement is not proved here; the
-   content statement above is unconditional. *)
+   cookies are main / token cookies or lie behind a gap).  Without the premise
+   the two responses differ at most in those deletion Set-Cookie headers: that
+   unconditional statement is C09_undecodable_ignored below, of which this
+   theorem is the special case of literally equal responses. *)
 Theorem C09_undecodable_ignored_partial : forall (E : env) (cfg : config) (st : inst) (now : time) (rq : request)
                                          (rnd : istr * istr * istr) (ans : option answer),
   NoDup (names (q_jar rq)) -> same_chunk_walk (c_key cfg) (q_jar rq) ->
@@ -97,6 +98,25 @@ Theorem C09_undecodable_ignored_partial : forall (E : env) (cfg : config) (st : 
   = serve E cfg st now (with_jar rq (filter (decodable (c_key cfg)) (q_jar rq))) rnd ans.
 Proof. exact (fun E cfg st now rq rnd ans H W => eq_sym (serve_ignores_undecodable E cfg st now rq rnd ans H W)). Qed.
 Print Assumptions C09_undecodable_ignored_partial.
+
+(* ... and with no premise on the walk: for every request (cookie names unique,
+   as in any Cookie header net/http parses into a jar) the ladder gives the same
+   new instance state, and the same response up to deletion headers (resp_sim:
+   status, Location, body, forwarded identity headers, CORS, provider calls and
+   flags are equal; the Set-Cookie headers that SET a cookie are the same, in
+   the same order; the headers that DELETE one (Max-Age < 0) may differ, and
+   every such header names a token chunk cookie, never the main or a token
+   cookie) for the request whose undecodable cookies are removed.  An
+   undecodable cookie thus never contributes session content; the only thing
+   it can cause is the deletion of chunk cookies. *)
+Theorem C09_undecodable_ignored : forall (E : env) (cfg : config) (st : inst) (now : time) (rq : request)
+    (rnd : istr * istr * istr) (ans : option answer),
+  NoDup (names (q_jar rq)) ->
+  let x  := serve E cfg st now rq rnd ans in
+  let x' := serve E cfg st now (with_jar rq (filter (decodable (c_key cfg)) (q_jar rq))) rnd ans in
+  fst x = fst x' /\ resp_sim (snd x) (snd x').
+Proof. exact serve_undecodable_sim. Qed.
+Print Assumptions C09_undecodable_ignored.
 
 (* no response of the model carries flag 4 (a planted secret readable in a
    cookie value without the key): what the world correspondence compares with
@@ -168,4 +188,26 @@ Proof.
   - cbv zeta. split; [|vm_compute; repeat split].
     repeat constructor; cbn; intros H; repeat (destruct H as [H|H]; try discriminate H); exact H.
   - vm_compute. repeat split.
+Qed.
+
+(* The weakening to "up to deletion headers" is needed, and the deletion
+   headers are real: the successful callback of the example deployment, from a
+   jar holding a junk access-token chunk cookie besides the pending login,
+   answers with one Set-Cookie more than from the filtered jar — the deletion
+   of that junk chunk cookie — and with the same live cookies. *)
+Example C09_deletion_differs :
+  let j := (CAccChunk 0, Junk) :: ex_jar_pending in
+  let r  := snd (serve exE excfg ex_inst ex_now (ex_callback j) ex_rnd (Some (AOk 10 16))) in
+  let r' := snd (serve exE excfg ex_inst ex_now (ex_callback ex_jar_pending) ex_rnd (Some (AOk 10 16))) in
+  NoDup (names j)
+  /\ filter (decodable (c_key excfg)) j = ex_jar_pending
+  /\ r_status r = 302
+  /\ r_cookies r = r_cookies r' ++ [(CAccChunk 0, [], true)]
+  /\ r_cookies r <> r_cookies r'
+  /\ live_cookies (r_cookies r) = live_cookies (r_cookies r')
+  /\ live_cookies (r_cookies r') = r_cookies r'.
+Proof.
+  cbv zeta. split; [|split; [|split; [|split; [|split; [|split]]]]]; try (vm_compute; reflexivity).
+  - repeat constructor; cbn; intros H; repeat (destruct H as [H|H]; try discriminate H); exact H.
+  - vm_compute. intros H. discriminate H.
 Qed.
